@@ -127,12 +127,15 @@ Fixpoint cores_of (ds : list dtype) : option (list core) :=
   end.
 
 (* ndonnx._funcs.result_type: struct dtypes other than the built-in nullables raise
-   TypeError; no argument at all reaches np.result_type() which raises ValueError. *)
+   TypeError; strings together with non-strings raise TypeError; no argument at all reaches
+   np.result_type() which raises ValueError. *)
+Definition mixes_str (cs : list core) : bool := existsb is_str cs && existsb (fun c => negb (is_str c)) cs.
 Definition result_type (ds : list dtype) : outcome dtype :=
   match cores_of ds with
   | None => RaiseTE
   | Some [] => RaiseVE
   | Some cs =>
+      if mixes_str cs then RaiseTE else
       let r := DCore (np_result_type cs) in
       Ok (if existsb is_nullable ds then into_nullable r else r)
   end.
